@@ -4729,7 +4729,10 @@ def parseNestedParens(s, handleLiteral=1):
     @raise MismatchedNesting: Raised if the number or placement
     of opening or closing parenthesis is invalid.
     """
-    s = s.strip()
+    # Only leading whitespace may be dropped here: the string may end with a
+    # literal whose content ends in whitespace.  Trailing whitespace outside
+    # of quotes and literals is discarded by splitQuoted.
+    s = s.lstrip()
     inQuote = 0
     contentStack = [[]]
     try:
